@@ -890,6 +890,29 @@ func ownersCase(engine string, rounds, clients int) map[string]any {
 	b.Taken()
 	total, wrong, first := 0, 0, ""
 	for r := 0; r < rounds; r++ {
+		// clients that give up while the proxy is still waiting for the backend's answer (the backend holds their request):
+		// their header lines are theirs alone too
+		gate := make(chan struct{})
+		held := okB
+		held.Gate = gate
+		script := func(_ int, sn *stack.Seen) stack.Behaviour {
+			if strings.HasPrefix(sn.RawQuery, "n=aband") {
+				return held
+			}
+			return okB
+		}
+		a.SetScript(script)
+		b.SetScript(script)
+		for k := 0; k < 3; k++ {
+			id := fmt.Sprintf("abandr%dk%d", r, k)
+			if conn, err := net.DialTimeout("tcp", s.Addr, 2*time.Second); err == nil {
+				conn.Write(stack.Request("POST", "/olla/proxy/v1/chat/completions?n="+id, s.Addr, [][2]string{{"Content-Type", "application/json"}, {"X-Owner-" + id, id}, {"X-Session", "session=" + id}, {"X-Trace", "t-" + id}}, []byte(`{}`), false))
+				go func() { time.Sleep(25 * time.Millisecond); conn.Close() }()
+			}
+		}
+		time.Sleep(60 * time.Millisecond)
+		close(gate)
+		time.Sleep(10 * time.Millisecond)
 		var wg sync.WaitGroup
 		for k := 0; k < clients; k++ {
 			wg.Add(1)
